@@ -114,7 +114,9 @@ CHECKS = {
         'thorough': {'shards': 16, 'timeout': 3600},
     },
     'C14': {
-        'pkg': 'internal/multiplex', 'test': 'TestVerif_C14', 'level': 'exploration',
+        'pkg': 'internal/multiplex', 'test': 'TestVerif_C14',
+        'parts': [{'pkg': 'internal/multiplex', 'test': 'TestVerif_C14'}, {'pkg': 'internal/server', 'test': 'TestVerif_C14UDP', 'shards': 6}],
+        'level': 'exploration',
         'technique': 'runtime monitor: exactly-once multiset oracle over tagged datagrams on real unordered session pairs with router-chosen arrival orders; oversize refusal checked on the wire tap; short-buffer read oracle',
         'level_text': 'Unordered session pairs over 1..8 connections, 1..8 streams with concurrent senders in both directions, tagged self-describing datagrams (sizes around 8192 and the frame maximum, random others), arrival order chosen by the router or free-running with jitter; '
                       'every received message must be byte-identical to a datagram written on that stream, at most once, and at quiescence on a healthy stream exactly once. A single-stream scenario sends every size 1..64, the boundary sizes and sizes above the maximum: '
